@@ -91,14 +91,13 @@ def _map_labels(
     Returns:
         np.ndarray: Returns a copy of the remapped array
     """
-    k = np.array(list(label_map.keys()), dtype=arr.dtype)
-    v = np.array(list(label_map.values()), dtype=arr.dtype)
-
-    max_value = max(arr.max(), max(k), max(v)) + 1
-
-    mapping_ar = np.arange(max_value, dtype=arr.dtype)
-    mapping_ar[k] = v
-    return mapping_ar[arr]
+    # Map via the unique labels of the array: the cost depends on the array size and not on
+    # the label values, and new labels that do not fit the input dtype widen the dtype
+    # instead of wrapping around
+    labels, inverse = np.unique(arr, return_inverse=True)
+    new_labels = [int(label_map.get(int(l), int(l))) for l in labels]
+    dtype = np.promote_types(arr.dtype, np.min_scalar_type(max(new_labels)))
+    return np.array(new_labels, dtype=dtype)[inverse].reshape(arr.shape)
 
 
 def _connected_components(
